@@ -169,6 +169,21 @@ func checkC04(e *RunEnv) *CheckResult {
 				}
 			}
 		}
+		// second versions staged on top of committed first versions, then back to the first version: bytes the object
+		// store already holds, under a path that is staged with another id
+		{
+			seedC := append(append([]Step{}, seedB...), Write("a", v2("a")), Write("d/x", v2("d/x")), Run("add", "a", "d/x"))
+			if bs := x.BuildState(seedC); bs != nil {
+				for _, tail := range [][]Step{
+					{Write("a", v1("a")), Run("add", "a")},
+					{Write("d/x", v1("d/x")), Run("add", "d")},
+					{Write("a", v1("a")), Write("d/x", v1("d/x")), Run("add", ".")},
+					{Write("a", v1("d/x")), Write("d/x", v1("a")), Run("add", "a", "d/x")}, // two files exchanging contents
+				} {
+					cs = append(cs, Case{Base: bs, BaseName: "S1+second-versions-staged", BaseSeed: seedC, Steps: tail})
+				}
+			}
+		}
 		// 250 path arguments in one command
 		{
 			var many []Step
